@@ -969,6 +969,25 @@ def normalize_params(sig, body, stats, byref=False):
     return sig, "".join(lets) + body
 
 
+def stmt_start_before(masked, pos):
+    """index of the delimiter (`;`, `{` or `}`) after which a statement can be inserted in front of the
+    statement that contains `pos`; a call inside a `match` arm (`P => call(..)`) is not in statement
+    position, so the insertion point moves in front of the whole `match`"""
+    k = max(masked.rfind(";", 0, pos), masked.rfind("{", 0, pos), masked.rfind("}", 0, pos))
+    for _ in range(4):
+        if "=>" not in masked[k + 1:pos]:
+            break
+        # the `{` at k opens (or a `,`-separated arm follows inside) a match: go to the `match` keyword
+        mk = None
+        for mm in re.finditer(r"\bmatch\b", masked[:k + 1]):
+            mk = mm
+        if mk is None:
+            break
+        pos = mk.start()
+        k = max(masked.rfind(";", 0, pos), masked.rfind("{", 0, pos), masked.rfind("}", 0, pos))
+    return k
+
+
 def model_guard_scopes(body):
     """Probe files only (rule R13).  In the real code `rc_deref()` / `rc_deref_mut()` return guards
     (Ref / RefMut / MutexGuard) that are dropped at the END of their scope: a temporary in the scrutinee
@@ -1064,7 +1083,7 @@ def process_fn(fn, spec, handle, stats, canary):
             if not ms_:
                 raise ExtractError("borrow probe: call site of %s not found: %s" % (name, rx_s))
             m_ = ms_[0]
-            k_ = max(masked.rfind(";", 0, m_.start()), masked.rfind("{", 0, m_.start()), masked.rfind("}", 0, m_.start()))
+            k_ = stmt_start_before(masked, m_.start())
             body = body[:k_ + 1] + "\n        /*BORROWPROBE %s.call %s*/ let bp_ = &(%s);" % (name, tags_, place_) + body[k_ + 1:]
     # the converse obligation: at a call that hands control to foreign code which may come back through
     # the same cell, the cell must NOT be lent; in probe mode a mutable use of the cell is placed right
@@ -1078,7 +1097,7 @@ def process_fn(fn, spec, handle, stats, canary):
             if not ms_:
                 raise ExtractError("free probe: call site of %s not found: %s" % (name, rx_s))
             m_ = ms_[0]
-            k_ = max(masked.rfind(";", 0, m_.start()), masked.rfind("{", 0, m_.start()), masked.rfind("}", 0, m_.start()))
+            k_ = stmt_start_before(masked, m_.start())
             body = body[:k_ + 1] + "\n        /*FREEPROBE %s.call %s*/ { let fp_ = &mut (%s); }" % (name, tags_, place_) + body[k_ + 1:]
         body = model_guard_scopes(body)
     # re-entry discipline: a proof assertion right before the statement that hands control to foreign
@@ -1396,6 +1415,10 @@ def extract_impl(path, header_lit, macro, args, handle, spec, stats, canary):
             ob_ = it["body"].index("{", lm.start())
             cb_ = match_close(it["body"], ob_)
             cbody = it["body"][ob_ + 1:cb_]
+            for (canon_, rx_) in lf.get("captures", []):
+                cm_ = re.search(r"let\s+(?:mut\s+)?(\w+)\s*(?::[^=;]+)?=\s*%s\s*;" % rx_, mask_trivia(it["body"][:lm.start()]))
+                if cm_ and cm_.group(1) != canon_:
+                    cbody = re.sub(r"\b%s\b" % re.escape(cm_.group(1)), canon_, cbody)
             wh = ("\nwhere " + where) if where else ""
             lsig = "fn %s<%s>(%s) -> (r: %s)%s" % (lf["name"], gen, lf["params"], lf["ret"], wh)
             synth = dict(kind="fn", name=lf["name"], sig=lsig, body=cbody.rstrip() + "\n    " + lf["tail"] + "\n")
@@ -1680,7 +1703,15 @@ def generate_(template_path, variant, canary=False):
                     # @@lazyfn <parent fn> <name> :: <params> :: <result type> :: <tail expression>
                     # (the contract of <name> follows as `@@fn <name>`)
                     parts_ = [x.strip() for x in l.split("::", 1)[1].split(" :: ")]
-                    spec.lazyfns.append(dict(parent=t[1], name=t[2], params=parts_[0], ret=parts_[1], tail=parts_[2]))
+                    # optional 4th part: `name=<regex of the initialiser>; ...` — the captured locals are
+                    # recognised by what they are initialised with in the parent, and alpha-renamed to the
+                    # parameter names (so that renaming a captured local does not lose the contract)
+                    caps_ = []
+                    if len(parts_) > 3:
+                        for c_ in parts_[3].split(";"):
+                            if "=" in c_:
+                                caps_.append(tuple(x.strip() for x in c_.split("=", 1)))
+                    spec.lazyfns.append(dict(parent=t[1], name=t[2], params=parts_[0], ret=parts_[1], tail=parts_[2], captures=caps_))
                     i += 1
                 elif t[0] == "@@freeprobe_at":
                     parts_ = [x.strip() for x in l.split(" :: ")]
